@@ -39,6 +39,12 @@ CHECKS = {
     text='Machine-checked proof about the slot-level model of the Annotator bookkeeping (update/hash snapshot, makeUniqueId, doSetAllAutomaticIds visit sequence, assignIds, setAutoId, clearAllIds, lookups): the hex rendering of the counter is injective and makeUniqueId terminates within |list|+1 increments with an identifier outside the list; in every history of setModel / direct model edits / assignments / clearAllIds / lookups the identifier list is synchronised with the recorded model state, hence assignAllIds at any point fills every slot the traversal reaches, leaves existing identifiers unchanged and assigns identifiers that occur exactly once afterwards (distinct from everything present at call time, including edits made after setModel, and from each other); assignId gives a fresh identifier and touches nothing else; itemCount/item agree with the model.  The superseded no-refresh behaviour is refuted by a kernel-evaluated history.  Tie: real Annotator on generated models with duplicated and auto-id-shaped identifiers and connections; after every operation all identifiers of the real model are compared exactly with the model, and an independent oracle checks the post-conditions on the implementation.',
     note='Trusted: Lean kernel; hx_annot.cpp (independent slot/visit traversal) and driver; generator/oracle.  Not modelled: std::hash collisions, item(id,index) among duplicates, MathML ids, shared ImportSource objects, variables with several equivalences (connection-id getter is address dependent, C12), Printer::printModel(model,true).',
     design='4 C13'),
+ 'C19': dict(
+    engine='repair',
+    technique='Lean 4 proof: decision logic of fixVariableInterfaces / linkUnits / clean stated outright (post-condition vs the validator model, iff for the false result, idempotence of clean), kernel-checked witness of the superseded early exit; differential run on generated models',
+    text='Machine-checked proof about the model of Model::fixVariableInterfaces (publicAndOrPrivateInterfaceTypeRequired, interfaceTypeFor, permitsInterfaceType), of the validator interface check, of linkUnits/hasUnlinkedUnits and of clean: a variable all of whose equivalences are reachable raises no validator interface issue after the fix whatever its interface string was, a sufficient interface is left unchanged, the call returns false exactly when some equivalence is unreachable or involves a parentless variable (and still repairs the others); linkUnits true implies nothing unlinked and every loose reference replaced by the model-owned units of that name, false iff a foreign or missing units; clean removes exactly the empty components (bottom-up) and units and is idempotent.  The superseded early exit is refuted by a kernel-evaluated witness.  Tie: real Model/Validator calls on generated models (arbitrary interface strings; sibling, parent, child, unreachable, other-model, parentless positions; units by loose/standard/own/foreign object; seeded empty components and units), compared with the model and with an independent python reference.',
+    note='Trusted: Lean kernel; hx_repair.cpp/hx_entity.h and driver; generators and reference.  Relative positions are computed from component paths; validator interface issues compared per variable as "involved in"; components that are imports, resets and variable units are stripped from the fix scenarios (the validator skips imported components; a reset on a free-standing variable crashes validateReset: C01/C09).',
+    design='4 C19'),
 }
 
 def manifest():
@@ -67,7 +73,8 @@ def manifest():
                    enable='each check configures /repo into a scratch dir with -DCMAKE_CXX_FLAGS=-DLIBCELLML_VERIF (vlib/common.py: build_lib) and links harness/hx_*.cpp against the static library',
                    baseline_off_cmd='python3 tools/baseline_off.py',
                    source_commits=hooks['source_commits'], add_only=True),
-        engines=[dict(name='annot', path='harness/hx_annot.cpp + lean/Cellml/Engine/Annot.lean', serves_properties=['C13'], kind_free_text='differential: real Annotator histories vs slot-level Lean model, exact identifiers after every operation'),
+        engines=[dict(name='repair', path='harness/hx_repair.cpp + lean/Cellml/Engine/Repair.lean', serves_properties=['C19'], kind_free_text='differential: real fixVariableInterfaces/linkUnits/clean (+Validator) vs Lean model'),
+                 dict(name='annot', path='harness/hx_annot.cpp + lean/Cellml/Engine/Annot.lean', serves_properties=['C13'], kind_free_text='differential: real Annotator histories vs slot-level Lean model, exact identifiers after every operation'),
                  dict(name='equals', path='harness/hx_equals.cpp + hx_entity.h + lean/Cellml/Engine/Equals.lean', serves_properties=['C10'], kind_free_text='differential: real equals() vs value-level Lean model on generated pairs'),
                  dict(name='units', path='harness/hx_units.cpp + lean/Cellml/Engine/Units.lean', serves_properties=['C08'], kind_free_text='differential: real Units::compatible/scalingFactor/equivalent/updateUnitMultiplier vs exact-rational Lean model'),
                  dict(name='equiv', path='harness/hx_equiv.cpp + lean/Cellml/Engine/Equiv.lean', serves_properties=['C18'], kind_free_text='differential: real equivalence queries/cache key vs Lean model; arena placement of objects'),
